@@ -156,6 +156,11 @@ SyntaxNode* SyntaxTree::rootNode() const
     return P->rootNode_;
 }
 
+void SyntaxTree::resetRootNode(SyntaxNode* node) const
+{
+    P->rootNode_ = node;
+}
+
 bool SyntaxTree::hasTranslationUnitAsRootNode() const
 {
     return static_cast<bool>(P->rootNode_->asTranslationUnit());
